@@ -306,6 +306,23 @@ fn pos_letters() -> Vec<Letter<ProofOfSpace>> {
     out
 }
 
+fn pos_raw() -> Vec<(&'static str, Vec<u8>)> {
+    // what a Rust-constructed version-2 proof with both / neither of pool key and contract hash
+    // serializes to: the parser must reject both
+    let mut out = Vec::new();
+    let mut both = v2_pos();
+    both.pool_contract_puzzle_hash = Some(Bytes32::new([0x33; 32]));
+    if let Ok(e) = Streamable::to_bytes(&both) {
+        out.push(("v2, pool key and contract hash both present", e));
+    }
+    let mut neither = v2_pos();
+    neither.pool_public_key = None;
+    if let Ok(e) = Streamable::to_bytes(&neither) {
+        out.push(("v2, neither pool key nor contract hash", e));
+    }
+    out
+}
+
 fn deep_program(n: usize) -> Program {
     let mut b = vec![0xffu8; n];
     b.extend(std::iter::repeat(0x80u8).take(n + 1));
@@ -627,7 +644,7 @@ pub fn registry() -> Vec<TypeEntry> {
         entry!("SecretKey", "chia-bls", "SecretKey", SecretKey, arb::<SecretKey>, none::<SecretKey>, sk_raw),
         entry!("GTElement", "chia-bls", "GTElement", GTElement, mk_gt, none::<GTElement>, no_raw),
         // chia-protocol: hand-written codecs
-        p!(ProofOfSpace, pos_letters),
+        p!(ProofOfSpace, pos_letters, pos_raw),
         p!(FullBlock, fullblock_letters, fullblock_raw),
         p!(UnfinishedBlock, unfinished_letters),
         p!(SubEpochSummary, ses_letters),
